@@ -364,6 +364,14 @@ def listener_before_read(ctx, rid):
               "`%s` uses the listening socket after the handler has waited for the client (next(parser)): by then a worker that was told to stop has closed its listeners, the call fails "
               "with EBADF and a request that was already being read is dropped without a response" % (late[0].text if late else ""), "listener consulted before the first read only")
     ctx.count("listener uses in AsyncWorker.handle", len(uses))
+    # ... and even the early use is too late for a handler that only *starts* after the listener was closed: eventlet's
+    # acceptor, killed with StopServe, still spawns a handler for every connection it had accepted, closes the listener, and
+    # only then do those handlers run -- their first statement, listener.getsockname(), fails with EBADF and the connection
+    # (accepted, never read) is dropped. The name has to be captured where the listener is known to be open (run()).
+    ctx.check(rid, not uses, key(f, "listener-not-used-by-handlers"), site(f, uses[0] if uses else None),
+              "AsyncWorker.handle asks the listening socket for its name (`%s`): a handler greenlet that starts after a stopping worker (TERM, HUP retirement, max_requests) has closed its "
+              "listeners gets EBADF -- the connection it was spawned for, already accepted, is closed unanswered (eventlet: at nearly every recycling under load)" % (uses[0].text if uses else ""),
+              "the listener's name is captured in run() and passed to the handlers")
 
 
 def r4(ctx):
